@@ -523,3 +523,118 @@ pub fn history(p: &Profile, min: usize, max: usize) -> BoxedStrategy<Vec<Step>> 
         })
         .boxed()
 }
+
+// ---------------------------------------------------------------------------------------
+// full condition generator (C15, C16, C17, C18)
+
+#[derive(Clone, Debug)]
+pub struct CondProfile {
+    pub distance: bool,
+    pub depth: u32,
+    /// ordering comparisons between values of different types (C15 trigger)
+    pub cross_type_ordering: bool,
+}
+
+pub fn count_cmp(max: u64) -> BoxedStrategy<CountCmp> {
+    (0u8..6, 0u64..=max)
+        .prop_map(|(k, n)| match k {
+            0 => CountCmp::Eq(n),
+            1 => CountCmp::Gt(n),
+            2 => CountCmp::Ge(n),
+            3 => CountCmp::Lt(n),
+            4 => CountCmp::Le(n),
+            _ => CountCmp::Ne(n),
+        })
+        .boxed()
+}
+
+/// operands from the mixed-type pool plus pieces that make contains/starts/ends interesting
+pub fn cmp_operand() -> BoxedStrategy<Val> {
+    prop_oneof![
+        10 => (0usize..16).prop_map(|i| value_pool()[i].clone()),
+        2 => prop::sample::select(vec![
+            Val::Str("abc".into()), Val::Str("efg".into()), Val::Str("cd".into()), Val::Str("".into()),
+            Val::VStr(vec!["ab".into()]), Val::VStr(vec!["bc".into(), "ef".into()]), Val::VStr(vec!["abc".into(), "defg".into()]),
+            Val::I64(1), Val::I64(9), Val::VI64(vec![1, 5]), Val::VI64(vec![5, 9]), Val::VI64(vec![]),
+            Val::F64(5.0f64.to_bits()), Val::F64(f64::NAN.to_bits()), Val::VF64(vec![5.0f64.to_bits()]),
+            Val::I64(6), Val::I64(4), Val::U64(4), Val::U64(6), Val::F64(4.5f64.to_bits()), Val::Str("4".into()), Val::Str("6".into()),
+        ]),
+        1 => any_val(),
+    ]
+    .boxed()
+}
+
+pub fn comparison() -> BoxedStrategy<Cmp> {
+    (0u8..9, cmp_operand())
+        .prop_map(|(k, v)| match k {
+            0 => Cmp::Eq(v),
+            1 => Cmp::Gt(v),
+            2 => Cmp::Ge(v),
+            3 => Cmp::Lt(v),
+            4 => Cmp::Le(v),
+            5 => Cmp::Ne(v),
+            6 => Cmp::Contains(v),
+            7 => Cmp::StartsWith(v),
+            _ => Cmp::EndsWith(v),
+        })
+        .boxed()
+}
+
+fn leaf_data(cp: &CondProfile) -> BoxedStrategy<CData> {
+    let mut alts: Vec<(u32, BoxedStrategy<CData>)> = vec![
+        (3, Just(CData::Node).boxed()),
+        (3, Just(CData::Edge).boxed()),
+        (2, count_cmp(4).prop_map(CData::EdgeCount).boxed()),
+        (2, count_cmp(3).prop_map(CData::EdgeCountFrom).boxed()),
+        (2, count_cmp(3).prop_map(CData::EdgeCountTo).boxed()),
+        (
+            3,
+            prop::collection::vec(
+                prop_oneof![
+                    4 => any::<u16>().prop_map(QId::SelElem),
+                    1 => any::<u16>().prop_map(QId::SelAlias),
+                    1 => (0usize..6).prop_map(|i| QId::Alias(alias_pool()[i].clone())),
+                    1 => (0u8..3, any::<bool>()).prop_map(|(k, n)| QId::Missing(k, n)),
+                ],
+                1..4,
+            )
+            .prop_map(CData::Ids)
+            .boxed(),
+        ),
+        (8, ((0usize..8), comparison()).prop_map(|(k, c)| CData::KeyValue(key_pool()[k].clone(), c)).boxed()),
+        (3, distinct_keys(3).prop_map(CData::Keys).boxed()),
+    ];
+    if cp.distance {
+        alts.push((4, count_cmp(5).prop_map(CData::Distance).boxed()));
+    }
+    proptest::strategy::Union::new_weighted(alts).boxed()
+}
+
+pub fn modifier() -> BoxedStrategy<Modifier> {
+    prop_oneof![5 => Just(Modifier::None), 2 => Just(Modifier::Not), 1 => Just(Modifier::Beyond), 1 => Just(Modifier::NotBeyond)].boxed()
+}
+
+pub fn logic() -> BoxedStrategy<Logic> {
+    prop_oneof![3 => Just(Logic::And), 2 => Just(Logic::Or)].boxed()
+}
+
+pub fn cond_list(cp: &CondProfile, depth: u32) -> BoxedStrategy<Vec<CCond>> {
+    let leaf = leaf_data(cp);
+    let data: BoxedStrategy<CData> = if depth == 0 {
+        leaf
+    } else {
+        let inner = cond_list(cp, depth - 1);
+        prop_oneof![5 => leaf, 1 => inner.prop_map(CData::Where)].boxed()
+    };
+    prop::collection::vec((logic(), modifier(), data), 1..=4)
+        .prop_map(|v| v.into_iter().map(|(logic, modifier, data)| CCond { logic, modifier, data }).collect())
+        .boxed()
+}
+
+pub fn has_cross_type_ordering(conds: &[CCond]) -> bool {
+    conds.iter().any(|c| match &c.data {
+        CData::KeyValue(_, Cmp::Gt(_) | Cmp::Ge(_) | Cmp::Lt(_) | Cmp::Le(_)) => true,
+        CData::Where(w) => has_cross_type_ordering(w),
+        _ => false,
+    })
+}
